@@ -149,13 +149,13 @@ func indexOf(s, sub string) int {
 func init() {
 	Register(&Prop{
 		ID:    "C13",
-		Rule:  "one execution = one fully populated value (every leaf ∈ {passing, failing t1, failing t2, failing both}, never zero or blank; slices of 1–2 elements; pointers set) of a core skeleton with ≤k focus units ranging over configuration × value (and, with any one unit deviating, every case again under an installed process-wide formatter; and any one unit over configuration × PostTransforms {none, one that changes the value, one that changes the value followed by a plain one} × value), run twice on the real code: Validate in place, and Parse of the value rendered as the map it would be decoded from into a fresh destination, under every field visit order; non-trivial = deviating case; distinct = distinct (skeleton, issue set)",
+		Rule:  "one execution = one fully populated value (every leaf ∈ {passing, failing t1, failing t2, failing both}, never zero or blank; slices of 1–2 elements; pointers set) of a core skeleton with ≤k focus units ranging over configuration × value (and, with any one unit deviating, every case again under an installed process-wide formatter; and any one unit over configuration × PostTransforms {none, one that changes the value, one that changes the value followed by a plain one, one returning a *ZogIssue with / without a path of its own} × value), run twice on the real code: Validate in place, and Parse of the value rendered as the map it would be decoded from into a fresh destination, under every field visit order; non-trivial = deviating case; distinct = distinct (skeleton, issue set)",
 		Floor: 50,
 		Bound: func(tier string) string {
 			k, e := coreK(tier)
 			return thoroughPrefix(tier) + fmt.Sprintf("k=%d focus units, %d skeletons, %d elements per slice, all visit orders", k, len(coreSkeletons(tier)), e)
 		},
-		Assumptions: []string{"toMap keys follow zog tag → schema key; leaves are presented with their native Go types", "schemas without Preprocess; PostTransforms never return errors (C12 covers those)"},
+		Assumptions: []string{"toMap keys follow zog tag → schema key; leaves are presented with their native Go types", "schemas without Preprocess; PostTransforms return no plain errors (C12 covers those), but may return a *ZogIssue"},
 		Items: func(tier string) []Item {
 			items := coreItems(tier, c13Scenario, func(a *Alpha) { a.Full = true }, []int{1}, 0)
 			// value-changing PostTransforms: any one unit over configuration × PostTransforms × value
